@@ -43,7 +43,7 @@ func init() {
 		},
 		Cases: func(r *obs.Run) int {
 			blocks := (c10ExhaustiveTotal(c10MaxL(r)) + c10Block - 1) / c10Block
-			return r.Share(blocks) + r.Share(r.Pick(1600, 40000))
+			return r.Share(blocks) + r.Share(r.Pick(4000, 40000))
 		},
 		Case:        c10Case,
 		MinDistinct: func(t string) int { return 50000 },
@@ -271,7 +271,10 @@ func c10Check(r *obs.Run, a c10alpha, s []byte, k int, exhaustive bool) {
 		}
 	}
 	// sub-range iteration
+	// iterSeq, iterValid, iterWord: the sequence being walked - the indexed one first, then another one
+	iterSeq, iterValid, iterWord, iterWhat := sq, valid, word, ""
 	iter := func(start, end int) {
+		sq, valid, word := iterSeq, iterValid, iterWord
 		var pos, kms []int
 		err := ki.ForEachKmerOf(sq, start, end, func(_ *kmerindex.Index, p, km int) {
 			pos = append(pos, p)
@@ -281,12 +284,12 @@ func c10Check(r *obs.Run, a c10alpha, s []byte, k int, exhaustive bool) {
 		r.Count("windows_visited", int64(len(pos)))
 		if end-start < k {
 			if len(pos) != 0 {
-				fail("iterate", fmt.Sprintf("ForEachKmerOf[%d,%d) shorter than k visited windows", start, end), pos, nil)
+				fail("iterate", fmt.Sprintf("ForEachKmerOf%s[%d,%d) shorter than k visited windows", iterWhat, start, end), pos, nil)
 			}
 			return
 		}
 		if err != nil {
-			fail("iterate", fmt.Sprintf("ForEachKmerOf[%d,%d) error %v", start, end, err), nil, nil)
+			fail("iterate", fmt.Sprintf("ForEachKmerOf%s[%d,%d) error %v", iterWhat, start, end, err), nil, nil)
 			return
 		}
 		var wp, wk []int
@@ -297,7 +300,7 @@ func c10Check(r *obs.Run, a c10alpha, s []byte, k int, exhaustive bool) {
 			}
 		}
 		if !reflect.DeepEqual(pos, wp) || !reflect.DeepEqual(kms, wk) {
-			fail("iterate", fmt.Sprintf("ForEachKmerOf[%d,%d) visits", start, end), map[string]interface{}{"pos": pos, "kmer": kms}, map[string]interface{}{"pos": wp, "kmer": wk})
+			fail("iterate", fmt.Sprintf("ForEachKmerOf%s[%d,%d) visits", iterWhat, start, end), map[string]interface{}{"pos": pos, "kmer": kms}, map[string]interface{}{"pos": wp, "kmer": wk})
 		}
 	}
 	n := len(s)
@@ -316,6 +319,48 @@ func c10Check(r *obs.Run, a c10alpha, s []byte, k int, exhaustive bool) {
 				en = st + k + r.Rng.Intn(minInt(n-st-k+1, 12))
 			}
 			iter(st, en)
+		}
+	}
+	// the same index walking a sequence other than the one it was built on (as the PALS filter does with its query)
+	if !exhaustive || r.Rng.Intn(8) == 0 {
+		o := append([]byte(nil), s...)
+		switch r.Rng.Intn(3) {
+		case 0: // reversed
+			for i, j := 0, len(o)-1; i < j; i, j = i+1, j-1 {
+				o[i], o[j] = o[j], o[i]
+			}
+		case 1: // other letters at the start, one letter more or less
+			for i := 0; i < len(o) && i < k; i++ {
+				o[i] = a.letters[r.Rng.Intn(4)]
+			}
+			if r.Rng.Intn(2) == 0 {
+				o = append(o, a.letters[r.Rng.Intn(4)])
+			} else if len(o) > k+1 {
+				o = o[:len(o)-1]
+			}
+		default: // rotated by one
+			o = append(o[1:], o[0])
+		}
+		iterSeq = linear.NewSeq("other", alphabet.BytesToLetters(append([]byte(nil), o...)), a.a)
+		iterValid, iterWord = c10Ref(a, o, k)
+		iterWhat = fmt.Sprintf(" over another sequence %.40q", o)
+		r.Count("other_sequences_iterated", 1)
+		m := len(o)
+		if m <= 9 {
+			for st := 0; st <= m; st++ {
+				for en := st; en <= m; en++ {
+					iter(st, en)
+				}
+			}
+		} else {
+			iter(0, m)
+			for j := 0; j < 8; j++ {
+				st := r.Rng.Intn(m - k + 1)
+				if j%2 == 0 {
+					st = r.Rng.Intn(minInt(k, m-k+1)) // starts inside the first k letters
+				}
+				iter(st, st+r.Rng.Intn(m-st+1))
+			}
 		}
 	}
 	// encoding helpers
